@@ -32,9 +32,14 @@ theorem facts_workSheetReader_skeleton :
   decide
 
 /-- copySheet loads the source, then the target (which marks an uncached target part as
-checked), then stores the copy in the cache: the order transcribed in `Impl.copySheet`. -/
+checked), then stores the copy in the cache: the order transcribed in `Impl.copySheet`. It then
+drops *both* copies of the overwritten sheet's relationships — the part in `File.Pkg` (written
+there by an earlier save, if any) and the loaded entry — before it stores the source's current
+relationships: dropping only the loaded entry (seeded change C02e/2) makes the saved package
+depend on whether a save happened before. -/
 theorem facts_copySheet_skeleton :
-    Facts.C02.copySheetCalls = ["f.workSheetReader", "f.workSheetReader", "f.Sheet.Store"] := by decide
+    Facts.C02.copySheetCalls = ["f.workSheetReader", "f.workSheetReader", "f.Sheet.Store",
+      "f.Pkg.Delete", "f.Relationships.Delete", "f.relsReader", "f.Relationships.Store"] := by decide
 
 /-- trimRow never drops or moves a row slot; a row is replaced by its trimmed form iff it
 keeps a cell or has an attribute; trimCell copies exactly the cells with a value. -/
